@@ -103,6 +103,8 @@ __CPROVER_requires((ctx->count & (VF_MD5_B - 1)) == VF_TAIL)
 #endif
 #ifdef VF_U_NMAX
 __CPROVER_requires(data_size <= VF_U_NMAX && __CPROVER_is_fresh(data, VF_U_NMAX))
+#elif defined(VF_U_NSAFE)	/* exact span, bounded length */
+__CPROVER_requires(data_size <= VF_U_NSAFE && (data_size == 0 || __CPROVER_is_fresh(data, data_size)))
 #else
 __CPROVER_requires(data_size == 0 || __CPROVER_is_fresh(data, data_size))
 #endif
